@@ -84,8 +84,10 @@ def run(ctx):
         rows = P.table(ctx, SC, ['self', 'content', 'class_id', 'properties'])
         site = ctx.site(SC)
         M = 'self.frame_max'
-        big = [x for x in rows if x.conds and x.conds[0][0] in ('(std::slice::len(content) > %s)' % M, '(std::slice::len(content) >= %s)' % M) and x.conds[0][1] is True]
-        small = [x for x in rows if x.conds and x.conds[0][0] in ('(std::slice::len(content) > %s)' % M, '(std::slice::len(content) >= %s)' % M) and x.conds[0][1] is False]
+        LEN = 'std::slice::len(content)'
+        # canonical comparisons: `len > M` is (M < len) holding, `len >= M` is (len < M) failing
+        big = [x for x in rows if x.conds and x.conds[0] in (('(%s < %s)' % (M, LEN), True), ('(%s < %s)' % (LEN, M), False))]
+        small = [x for x in rows if x.conds and x.conds[0] in (('(%s < %s)' % (M, LEN), False), ('(%s < %s)' % (LEN, M), True))]
         if not r.check('rows', len(rows) == 3 and len(big) == 1 and len(small) == 2, site, built=[x.cond_strs() for x in rows], expected='loop while len > M (or >=); then tail / no tail'):
             return
         eff = [e for e in big[0].effects if not e.startswith('std::slice::')]
@@ -94,8 +96,8 @@ def run(ctx):
         want = [H0 + 'send_content_body(self.handle, content[std::ops::RangeTo{end: %s}])' % M, 'content = content[std::ops::RangeFrom{start: %s}]' % M, '} next-iteration']
         r.eq('loop-body', body, want, site, why='the chunk sent and the bytes skipped must be the same M = frame_max - overhead, or bytes are lost / duplicated / frames too long')
         r.check('loop-continues', big[0].done == 'iterate', site)
-        tail = [x for x in small if ('!std::slice::is_empty(content)', True) in x.conds]
-        none = [x for x in small if ('!std::slice::is_empty(content)', False) in x.conds]
+        tail = [x for x in small if ('is_empty(content)', False) in x.conds]
+        none = [x for x in small if ('is_empty(content)', True) in x.conds]
         if r.check('tail-rows', len(tail) == 1 and len(none) == 1, site, built=[x.cond_strs() for x in small]):
             te = [e for e in tail[0].effects if e.startswith(H0 + 'send_content_body')]
             r.eq('tail-sent', te, [H0 + 'send_content_body(self.handle, content)'], site, why='the final partial chunk')
